@@ -41,7 +41,7 @@ struct BdsTR {
     { WOp<D> o; o.name = "CC76_extrapolation_assign"; o.cert = CERT_NONE; o.call = [](D& x, const D& y, unsigned* tp) { x.CC76_extrapolation_assign(y, tp); };
       o.lim_name = "limited_CC76_extrapolation_assign"; o.lim = [](D& x, const D& y, const Constraint_System& cs, unsigned* tp) { x.limited_CC76_extrapolation_assign(y, cs, tp); };
       v.push_back(o); v.push_back(o); }
-    { WOp<D> o; o.name = "CC76_extrapolation_assign[stop-points]"; o.cert = CERT_NONE;
+    { WOp<D> o; o.name = "CC76_extrapolation_assign@stop-points"; o.cert = CERT_NONE;
       typedef D::coefficient_type N;
       std::shared_ptr<std::vector<N> > sp(new std::vector<N>());
       int k = rnd(0, 4); std::vector<int> pts; for (int i = 0; i < k; ++i) pts.push_back(rnd(-6, 9)); std::sort(pts.begin(), pts.end()); pts.erase(std::unique(pts.begin(), pts.end()), pts.end());
